@@ -676,6 +676,354 @@ def oracle_pair(res, seed, xT):
     res.count('pair-checked')
 
 
+# ------------------------------------------------------------------ user-supplied callable tables (setMobility / setDiffusivity)
+NPOOL = 5
+_UDB = {}
+
+
+def _load_user(name):
+    """private instance + what its tables were after construction (restored before every case)"""
+    if name not in _UDB:
+        th = _load(name, private=True)
+        phase = th.phases[0]
+        _UDB[name] = (th, phase, th.mobCallables.get(phase), th.diffCallables.get(phase))
+    return _UDB[name]
+
+
+def make_pool(rng):
+    """NPOOL Arrhenius functions A.exp(-Q/(R.T)), strictly ordered at every temperature and >= 1.5 decades apart:
+    a function is identified by its values at two temperatures"""
+    la = rng.uniform(-8.0, -4.0)
+    A, Q = [], sorted(rng.uniform(5e4, 1.5e5) for _ in range(NPOOL))
+    for _ in range(NPOOL):
+        A.append(10 ** la)
+        la -= rng.uniform(1.5, 2.5)
+    return list(zip(A, Q))
+
+
+def pool_func(A, Q):
+    return lambda T: A * math.exp(-Q / (RGAS * T))
+
+
+def make_history(rng, n):
+    """ops: ('A', w, [(e, f), ...]) dict in that key order | ('S', w, f) one callable | ('O', w, e, f, [(e', f'), ...], pos)
+    element=e with a dict that may carry further (ignored) entries; w = 'M' setMobility | 'D' setDiffusivity"""
+    ops = []
+    nops = rng.randint(1, 5)
+    for i in range(nops):
+        w = 'M' if rng.random() < 0.7 else 'D'
+        r = rng.random()
+        if r < (0.65 if i == 0 else 0.4):
+            keys = list(range(n)); rng.shuffle(keys)
+            if n > 1 and rng.random() < 0.1:
+                keys = keys[:rng.randint(1, n - 1)]          # partial dict: the other elements are left without a callable
+            if rng.random() < 0.85:
+                fids = rng.sample(range(NPOOL), len(keys))   # all different
+            else:
+                fids = [rng.randrange(NPOOL) for _ in keys]
+            ops.append(('A', w, list(zip(keys, fids))))
+        elif r < (0.75 if i == 0 else 0.55):
+            ops.append(('S', w, rng.randrange(NPOOL)))
+        else:
+            e = rng.randrange(n)
+            extra = [(x, rng.randrange(NPOOL)) for x in range(n) if x != e and rng.random() < 0.4]
+            ops.append(('O', w, e, rng.randrange(NPOOL), extra, rng.randint(0, len(extra))))
+    return ops
+
+
+def enc_op(op):
+    if op[0] == 'A':
+        return 'A %s %d %s' % (op[1], len(op[2]), ' '.join('%d %d' % p for p in op[2]))
+    if op[0] == 'S':
+        return 'S %s %d' % (op[1], op[2])
+    return 'O %s %d %d' % (op[1], op[2], op[3])
+
+
+def spec_step(state, op, n):
+    """the documented behaviour, on plain dicts (None = the phase has no table): returns raised"""
+    w = op[1]
+    if op[0] == 'A':
+        state[w] = {e: f for e, f in op[2]}          # a new table: every element bound to its own entry
+    elif op[0] == 'S':
+        state[w] = {e: op[2] for e in range(n)}
+    else:
+        if state[w] is None:
+            return True
+        state[w][op[2]] = op[3]                      # last write for that element wins, nothing else touched
+    return False
+
+
+def spec_read(state, e):
+    for w in ('M', 'D'):
+        if state[w] is not None:
+            return (w, state[w][e]) if e in state[w] else ('K', None)
+    return ('N', None)
+
+
+def apply_op(th, phase, els, funcs, op):
+    setter = th.setMobility if op[1] == 'M' else th.setDiffusivity
+    if op[0] == 'A':
+        setter({els[e]: funcs[f] for e, f in op[2]}, phase)
+    elif op[0] == 'S':
+        setter(funcs[op[2]], phase)
+    else:
+        items = list(op[4]); items.insert(op[5], (op[2], op[3]))
+        setter({els[e]: funcs[f] for e, f in items}, phase, element=els[op[2]])
+
+
+def probe_table(tab, init, base, els, dofs, Ts, funcs):
+    """identify every entry of a callable table: -2 no table, -1 no entry, 1000+e / 2000+e the database's own callable
+    (object identity), f < NPOOL the user's function with the same values at both probe temperatures, -3 none of them"""
+    if tab is None:
+        return [-2] * len(els)
+    out = []
+    for i, e in enumerate(els):
+        if e not in tab:
+            out.append(-1); continue
+        c = tab[e]
+        if init is not None and c is init.get(e):
+            out.append(base + i); continue
+        vals = [float(c(d)) for d in dofs]
+        hit = [f for f in range(len(funcs)) if all(close(vals[j], funcs[f](Ts[j]), 1e-12) for j in range(len(Ts)))]
+        out.append(hit[0] if len(hit) == 1 else -3)
+    return out
+
+
+def user_eval(res, U, x, T, state, tag, where):
+    """one evaluation point after some prefix of the history: public API + module functions vs the functions the user gave.
+    Returns what the model is compared with (None when the point could not be evaluated)."""
+    FEH, Mob = _kawin()
+    th, phase, els, n, funcs, corr = U['th'], U['phase'], U['els'], U['n'], U['funcs'], U['corr']
+    d = dict(U['desc'], x=x, T=T, after=where)
+    reads = [spec_read(state, i) for i in range(n)]
+    bad = [r[0] for r in reads if r[0] in ('K', 'N')]
+    uall = list(th.elements[:-1]); ref = th.elements[0]
+    if bad:
+        # the table in use lacks an element (or there is none): the implementation raises KeyError / ValueError
+        try:
+            tr = th.getTracerDiffusivity(x, T)
+        except (KeyError, ValueError, TypeError) as e:
+            res.count('user-read-raises:' + type(e).__name__)
+            return dict(raised=True)
+        res.disagree('reading a callable table that lacks an element does not raise', d, np.asarray(tr, dtype=float).tolist(), 'KeyError / ValueError')
+        return dict(raised=True)
+    eq, css = th.getLocalEq(x, T, 0, [phase])
+    cs = css[0]
+    mu = np.array(eq.chemical_potentials, dtype=float)
+    dof = np.array(cs.dof, dtype=float)
+    Tcs = float(dof[U['Tidx']])
+    path = reads[0][0]
+
+    def fval(i):
+        w, f = reads[i]
+        if f < 1000:
+            return funcs[f](Tcs)
+        return float((U['init_mob'] if f < 2000 else U['init_diff'])[els[i]](cs.dof))
+    raw = np.array([corr[i] * fval(i) for i in range(n)])
+    want_tr = RGAS * Tcs * raw if path == 'M' else raw
+    cor = lambda: {e: corr[i] for i, e in enumerate(els)}
+    # public API
+    tr = np.atleast_1d(np.asarray(th.getTracerDiffusivity(x, T), dtype=float))
+    D = np.atleast_2d(np.asarray(th.getInterdiffusivity(x, T), dtype=float))
+    want_pub = np.array([want_tr[els.index(e)] for e in uall])
+    own = 'mobility' if path == 'M' else 'diffusivity'
+    if not mclose(tr, want_pub, 1e-9):
+        res.violate('user-%s-tracer-not-own-function:%s' % (own, tag),
+                    'after the setMobility/setDiffusivity history getTracerDiffusivity of an element is not %s of the function given FOR that element '
+                    '(last write per element wins)' % ('R*T*M_e(T)' if path == 'M' else 'D_e(T)'),
+                    dict(d, elements=uall, reads=[[els[i], reads[i][0], reads[i][1]] for i in range(n)]), tr.tolist(), want_pub.tolist())
+    if not np.all(tr > 0):
+        res.violate('user-tracer-nonpositive:' + tag, 'tracer diffusivity from positive user functions is not positive', d, tr.tolist(), '> 0')
+    user = list(th.elements[1:-1]); alpha_nr = [e for e in els if e != ref]
+    o = dict(tracer_pub=tr.tolist())
+    if path == 'M':
+        tab = th.mobCallables[phase]
+        m = np.array(Mob.mobility_from_composition_set(cs, tab, cor()), dtype=float)
+        t2 = np.array(Mob.tracer_diffusivity(cs, tab, cor()), dtype=float)
+        if not mclose(m, raw, 1e-12):
+            res.violate('user-mobility-from-composition-set:' + tag, 'mobility_from_composition_set with the table left by the history is not correction * the function given for the element',
+                        d, m.tolist(), raw.tolist())
+        o.update(raw=m, tracer=t2)
+        # the given mobilities, wrapped by the harness itself, through the (separately checked) module functions
+        mine = {}
+        for i, e in enumerate(els):
+            f = reads[i][1]
+            mine[e] = (lambda g, k: (lambda dof_: g(dof_[k])))(funcs[f], U['Tidx']) if f < 1000 else U['init_mob'][e]
+        vp = th.vacancyPoorInterstitialSublattice.get(phase, False)
+        Dn, _ = Mob.interdiffusivity(mu, cs, ref, mine, cor(), False, vp)
+        Dn = np.atleast_2d(np.asarray(Dn, dtype=float))
+        want = np.array([[Dn[alpha_nr.index(a), alpha_nr.index(b)] for b in user] for a in user])
+        if not mclose(D, want, 1e-7, float(np.abs(want).max()) * 1e-3):
+            res.violate('user-mobility-interdiffusivity:' + tag, 'getInterdiffusivity is not the interdiffusivity of the mobilities the user gave per element',
+                        d, D.tolist(), want.tolist())
+        if n == 2 and bool(getattr(eq, 'converged', True)):
+            X = np.array(cs.X, dtype=float); r_ = els.index(ref); k = 1 - r_
+            G2 = float(np.atleast_2d(FEH.dMudX(mu, cs, ref))[0, 0])
+            dk = (X[r_] * want_tr[k] + X[k] * want_tr[r_]) * (X[k] * X[r_] * G2 / (RGAS * Tcs))
+            if not close(float(D[0, 0]), dk, 1e-6):
+                res.violate('user-mobility-darken:' + tag, 'binary getInterdiffusivity is not the Darken combination of R*T*M of the given mobilities and the thermodynamic factor',
+                            d, float(D[0, 0]), dk)
+            res.count('user-darken-checked')
+    else:
+        tab = th.diffCallables[phase]
+        t2 = np.array(Mob.tracer_diffusivity_from_diff(cs, tab, cor()), dtype=float)
+        o.update(raw=t2, tracer=t2)
+        want = np.diag([want_tr[els.index(e)] for e in user])
+        if not mclose(D, want, 1e-9):
+            res.violate('user-diffusivity-interdiffusivity:' + tag, 'getInterdiffusivity (diffusivity table) is not diag(D_e(T)) of the functions given for the solutes',
+                        d, D.tolist(), want.tolist())
+    o['Tcs'] = Tcs
+    o['dbm'] = [float(U['init_mob'][e](cs.dof)) if U['init_mob'] is not None else 0.0 for e in els]
+    o['dbd'] = [float(U['init_diff'][e](cs.dof)) if U['init_diff'] is not None else 0.0 for e in els]
+    o['raised'] = False
+    o['alluser'] = all(r[1] < 1000 for r in reads)
+    return o
+
+
+def user_case(res, name, seed):
+    import random
+    rng = random.Random(seed)
+    th, phase, init_mob, init_diff = _load_user(name)
+    from pycalphad import variables as v
+    els = sorted(e for e in th.elements if e != 'VA'); n = len(els)
+    tag = 'user-' + name
+    pool = make_pool(rng); funcs = [pool_func(A, Q) for A, Q in pool]
+    ops = make_history(rng, n)
+    x, T = BOXES[name](rng)
+    x2, T2 = BOXES[name](rng)
+    corr = [1.0] * n
+    ck = rng.random()
+    if ck < 0.15:
+        corr = [float(10 ** rng.uniform(-1, 1))] * n
+    elif ck < 0.5:
+        corr = [float(10 ** rng.uniform(-1, 1)) if rng.random() < 0.6 else 1.0 for _ in range(n)]
+    desc = dict(kind='user:' + name, seed=seed, elements=els, phase=phase, ops=[list(o) for o in ops],
+                pool=[[A, Q] for A, Q in pool], correction=corr, database_tables=dict(mobility=init_mob is not None, diffusivity=init_diff is not None))
+    U = dict(th=th, phase=phase, els=els, n=n, funcs=funcs, corr=corr, desc=desc, init_mob=init_mob, init_diff=init_diff,
+             Tidx=th.stateVariables.index(v.T))
+    out = dict(desc=desc, name=name, n=n, ops=ops, pool=pool, corr=corr, steps=[], final=None, lines=[],
+               init=(init_mob is not None, init_diff is not None), nontrivial=False)
+    state = {'M': None if init_mob is None else {i: 1000 + i for i in range(n)},
+             'D': None if init_diff is None else {i: 2000 + i for i in range(n)}}
+    try:
+        th.mobCallables[phase] = None if init_mob is None else dict(init_mob)
+        th.diffCallables[phase] = None if init_diff is None else dict(init_diff)
+        if ck < 0.15:
+            th.setMobilityCorrection('all', corr[0])
+        else:
+            for i, e in enumerate(els):
+                if corr[i] != 1.0:
+                    th.setMobilityCorrection(e, corr[i])
+        # probe inputs: a real dof vector of the phase with the temperature replaced
+        _, css = th.getLocalEq(x, T, 0, [phase])
+        base = np.array(css[0].dof, dtype=float)
+        Ts = [T, T2 if abs(T2 - T) > 1.0 else T + 37.0]
+        dofs = []
+        for t in Ts:
+            dd = base.copy(); dd[U['Tidx']] = t; dofs.append(dd)
+        for j, op in enumerate(ops):
+            want_raise = spec_step(state, op, n)
+            raised = False
+            try:
+                apply_op(th, phase, els, funcs, op)
+            except TypeError:
+                if not want_raise:
+                    raise
+                raised = True
+            res.count('user-op:' + op[0] + op[1] + (':raises' if raised else ''))
+            if want_raise and not raised:
+                res.disagree('setMobility/setDiffusivity(element=...) on a phase without a table does not raise', dict(desc, after=j), 'no exception', 'TypeError')
+                break
+            if op[0] == 'A' and len(op[2]) == n:
+                res.count('user-dict-order:' + ''.join(str(e) for e, _ in op[2]))
+            pm = probe_table(th.mobCallables[phase], init_mob, 1000, els, dofs, Ts, funcs)
+            pd = probe_table(th.diffCallables[phase], init_diff, 2000, els, dofs, Ts, funcs)
+            # direct oracle on the tables: every element carries the function the user gave FOR it (last write wins)
+            for w, got, lab in (('M', pm, 'mobility'), ('D', pd, 'diffusivity')):
+                want = [-2] * n if state[w] is None else [state[w].get(i, -1) for i in range(n)]
+                if got != want:
+                    res.violate('user-%s-table-wrong-function:%s' % (lab, tag),
+                                'after the history the %s callable of an element is not the function the user gave for that element '
+                                '(functions identified by their values at two temperatures; -1 no entry, -2 no table, -3 unknown function)' % lab,
+                                dict(desc, after=j, elements=els), got, want)
+            ev = user_eval(res, U, x, T, state, tag, j)
+            out['steps'].append(dict(raised=raised, want_raise=want_raise, pm=pm, pd=pd, ev=ev))
+            if ev and not ev.get('raised') and any(spec_read(state, i)[1] is not None and spec_read(state, i)[1] < 1000 for i in range(n)):
+                out['nontrivial'] = True
+        # the whole history: a second temperature, and a second composition at that temperature
+        ev2 = user_eval(res, U, x, T2, state, tag, 'end:T2')
+        out['final'] = ev2
+        if ev2 and not ev2.get('raised') and ev2.get('alluser'):
+            ev3 = user_eval(res, U, x2, T2, state, tag, 'end:x2')
+            if ev3 and not ev3.get('raised') and not mclose(ev3['tracer_pub'], ev2['tracer_pub'], 1e-13):
+                res.violate('user-tracer-depends-on-composition:' + tag,
+                            'tracer diffusivities from user functions of T alone differ between two compositions at the same temperature',
+                            dict(desc, x=[x, x2], T=T2), ev3['tracer_pub'], ev2['tracer_pub'])
+            res.count('user-dependence-checked')
+    finally:
+        th.mobCallables[phase] = init_mob
+        th.diffCallables[phase] = init_diff
+        th.setMobilityCorrection('all', 1)
+    # model lines: the same history at the two temperatures
+    head = 'c10.table %d %s %s %d %s %d %s' % (n, vlib.enc_bool(init_mob is not None), vlib.enc_bool(init_diff is not None),
+                                               len(ops), ' '.join(enc_op(o) for o in ops), len(pool),
+                                               ' '.join('%s %s' % (f2b(A), f2b(Q)) for A, Q in pool))
+    last = [s['ev'] for s in out['steps'] if s['ev'] and not s['ev'].get('raised')]
+    for ev in ((last[-1] if last else None), out['final'] if out['final'] and not out['final'].get('raised') else None):
+        if ev is None:
+            out['lines'].append(head + ' %s %s %s %s' % (f2b(T), enc_list(corr), enc_list([0.0] * n), enc_list([0.0] * n)))
+        else:
+            out['lines'].append(head + ' %s %s %s %s' % (f2b(ev['Tcs']), enc_list(corr), enc_list(ev['dbm']), enc_list(ev['dbd'])))
+    return out
+
+
+def _opt(tok):
+    return None if tok == 'none' else vlib.b2f(tok)
+
+
+def compare_user(res, uc, answers):
+    d, n = uc['desc'], uc['n']
+    for li, ans in enumerate(answers):
+        t = Toks(ans)
+        if not t.ok:
+            res.disagree('c10.table: model error ' + str(t.err), d, 'ok', t.err); return
+        rows = []
+        for _ in uc['ops']:
+            raised = t.bool()
+            cells = []
+            for e in range(n):
+                me, de, rc, raw, tr = int(t.tok()), int(t.tok()), t.tok(), _opt(t.tok()), _opt(t.tok())
+                cells.append((me, de, rc, raw, tr))
+            rows.append((raised, cells))
+        if li == 0:
+            for j, ((raised, cells), st) in enumerate(zip(rows, uc['steps'])):
+                if raised != st['raised']:
+                    res.disagree('setMobility/setDiffusivity op %d raises' % j, d, st['raised'], raised)
+                if [c[0] for c in cells] != st['pm'] or [c[1] for c in cells] != st['pd']:
+                    res.disagree('callable tables after op %d (function ids)' % j, d, [st['pm'], st['pd']], [[c[0] for c in cells], [c[1] for c in cells]])
+                ev = st['ev']
+                model_raises = any(c[2] in ('K', 'N') for c in cells)
+                if ev is not None and bool(ev.get('raised')) != model_raises:
+                    res.disagree('read after op %d raises' % j, d, ev.get('raised'), model_raises)
+            evs = [s['ev'] for s in uc['steps'] if s['ev'] and not s['ev'].get('raised')]
+            ev = evs[-1] if evs else None
+            idx = max([j for j, s in enumerate(uc['steps']) if s['ev'] and not s['ev'].get('raised')], default=None)
+        else:
+            ev = uc['final'] if uc['final'] and not uc['final'].get('raised') else None
+            idx = len(rows) - 1
+        if ev is not None and idx is not None:
+            cells = rows[idx][1]
+            mraw = [c[3] for c in cells]; mtr = [c[4] for c in cells]
+            if any(v is None for v in mraw + mtr) or not mclose(ev['raw'], mraw, 1e-12) or not mclose(ev['tracer'], mtr, 1e-12):
+                res.disagree('values read from the callable table (correction*function, tracer)', dict(d, line=li),
+                             [np.asarray(ev['raw']).tolist(), np.asarray(ev['tracer']).tolist()], [mraw, mtr])
+
+
+USER_QUICK = {'AlZr-nomob': 40, 'AlZr': 16, 'NiAl': 12, 'NiCr': 8, 'NiCrAl': 28, 'NiAlCr': 12}
+USER_THOROUGH = {'AlZr-nomob': 600, 'AlZr': 300, 'NiAl': 200, 'NiCr': 150, 'NiCrAl': 500, 'NiAlCr': 300, 'FeCrNi': 300, 'AlMgSi': 300,
+                 'CuTi': 200, 'AlZr-ex': 100}
+
+
 # ------------------------------------------------------------------ driver
 STUB_KINDS = ['subst', 'interst', 'binary-stationary', 'singular']
 
@@ -693,6 +1041,9 @@ def plan(ctx):
     for name, cnt in real.items():
         for _ in range(cnt):
             P.append(('real', name, ctx.rng.getrandbits(40)))
+    for name, cnt in (USER_THOROUGH if ctx.thorough else USER_QUICK).items():
+        for _ in range(cnt):
+            P.append(('user', name, ctx.rng.getrandbits(40)))
     return P
 
 
@@ -716,13 +1067,26 @@ def run(ctx, P, use_model=True):
                 'composition sets from getLocalEq on sampled (x, T) boxes of the matrix phase of the shipped databases; '
                 'non-trivial = invertible bordered Hessian; distinct = (kind, seed)')
     res.monitored = list(MONITORED)
-    cases, lines, spans = [], [], []
+    cases, lines, spans, ucases = [], [], [], []
     G = vlib.guarded
     with warnings.catch_warnings():
         warnings.simplefilter('ignore')
         for kind, name, seed in P:
             tag = name if kind == 'real' else 'stub-' + name
             ident = dict(kind=kind + ':' + name, seed=seed)
+            if kind == 'user':
+                # setMobility / setDiffusivity history on a private instance: oracles run inside, model lines are returned
+                ok, uc = G(res, 'user-table:' + name, ident, user_case, res, name, seed)
+                res.case((kind, name, seed), bool(ok and uc['nontrivial']))
+                if not ok:
+                    res.count('case-aborted:user-' + name)
+                    continue
+                res.count('case:user-' + name)
+                ucases.append((uc, len(lines), len(uc['lines'])))
+                lines += uc['lines']
+                if sum(1 for s_ in res.samples if s_.get('kind', '').startswith('user:')) < 1:
+                    res.sample(dict(uc['desc'], tracer_after_history=(uc['final'] or {}).get('tracer_pub')), cap=4)
+                continue
             # every case runs in its own guard: an exception raised inside kawin becomes a violation carrying the case
             ok, case = G(res, 'build-case:' + tag, ident, build_case, kind, name, seed)
             if not ok:
@@ -754,6 +1118,12 @@ def run(ctx, P, use_model=True):
             ok, answers = G(res, 'model-driver', dict(lines=len(lines)), vlib.run_driver, PROP, lines)
             if not ok:
                 answers = None
+        if answers is not None:
+            for uc, st, ln in ucases:
+                try:
+                    compare_user(res, uc, answers[st:st + ln])
+                except (ValueError, StopIteration, IndexError) as e:
+                    res.disagree('model answer malformed: %r' % (e,), uc['desc'], None, answers[st:st + ln][:1])
         npairs = 0
         for (kind, name, seed, case, o, g), (st, ln, ntr, dark) in zip(cases, spans):
             tag = name if kind == 'real' else 'stub-' + name
